@@ -30,7 +30,8 @@ ASSUMPTIONS = [
     'providedBy(exception)) and isexception(context) are oracle inputs computed with the real library',
     'one decision table per request: policy.permits is a function of (permission, context); its answer is used by truthiness',
     'predicates used: request_method, xhr, custom (truth tables over the request, independent of the context)',
-    'debug_authorization is off and require_csrf is unset (the _authdebug_view and csrf_view derivers return the view unchanged); '
+    'debug_authorization is off (the _authdebug_view deriver returns the view unchanged); csrf_view is enabled per view by '
+    'require_csrf=True only (no default CSRF options; CookieCSRFStoragePolicy; http scheme, so no origin check); '
     'http_cached_view, rendered_view, mapped_view do not affect the event log',
     'policy / default-permission / route statements are written before the first commit; a program has at most one of each',
     'exception-context views are unnamed, wrapper views are named w1/w2 and w2 has no wrapper (no wrapper cycles)',
@@ -122,7 +123,7 @@ def _stmt_wire(w, s):
         riface = w.cfg.registry.queryUtility(P['IRouteRequest'], name='__static/')
         req = w.iid(riface) if riface is not None else 1
         vo = [s['tag'], req, w.iid(P['Interface']), '', [], None if s['perm'] is None else [W.perm_text(s['perm'])],
-              False, False, '', False, 0]
+              False, False, '', False, 0, False]
         return [7, vo]
     if k == 'view':
         ctxo = P['classes'][s['ctx']] if s['ctx'] is not None else None
@@ -136,7 +137,7 @@ def _stmt_wire(w, s):
     vo = [s['tag'], req, w.iid(spec), name, _kw_wire(s.get('preds', {})),
           None if s.get('perm') is None or k != 'view' else [W.perm_text(s['perm'])],
           bool(isexception(ctxo)), bool(s.get('exc_only')) and k == 'view', s.get('wrapper') or '', bool(s.get('deco')),
-          BEHAVE[s['behave']]]
+          BEHAVE[s['behave']], bool(s.get('csrf')) and k == 'view']
     if k == 'notfound':
         return [5, vo, bool(s.get('append_slash'))]
     return [KCODE[k], vo]
@@ -163,8 +164,9 @@ def to_wire(case):
     reqs = []
     for r in case['requests']:
         o = w.oracle(r)
-        reqs.append([r['method'], bool(r['xhr']), list(r['truth']), o['vname'], [0, o['res']], o['req_sro'], o['comb_sro'],
-                     o['wrap_sro'], o['ctx_sro'], o['exc_sro']])
+        base = [r['method'], bool(r['xhr']), list(r['truth']), o['vname'], [0, o['res']], o['req_sro'], o['comb_sro'],
+                o['wrap_sro'], o['ctx_sro'], o['exc_sro'], r['method'] == 'GET' or bool(r.get('csrf'))]
+        reqs.append([9, bool(r['secure']), base] if r.get('op') == 'render' else base)
     bw = _batches_wire(w, case)          # after the oracles: every interface has its id by now
     return [0, irq, ier, iwsgi, bw, [[W.perm_text(p), _ctx_wire(c)] for p, c in case['grants']], reqs]
 
@@ -193,11 +195,13 @@ def _out(tr, fin):
     if fin[0] == 0:
         if fin[1] == W.BUILTIN_TAG:
             last = [e for e in tr if e[0] == 'raised']
-            st = {'forbidden': '403', 'notfound': '404', 'pme': '404'}.get(last[-1][1] if last else None, '?')
+            st = {'forbidden': '403', 'notfound': '404', 'pme': '404', 'csrf': '400'}.get(last[-1][1] if last else None, '?')
             return ['ret', W.BUILTIN_TAG, st]
         return ['ret', fin[1]]
     if fin[0] == 1:
         return ['exc', W.EXC_KINDS[fin[1]]]
+    if fin[0] == 3:
+        return ['none']
     return ['stuck']
 
 
@@ -214,7 +218,9 @@ def from_wire(case, raw):
         return {'model': ['MODEL-BAD', raw], 'spec': None}
     dtab, per = raw
     model, masks = [], []
-    for tr, fin, mask in per:
+    for tr, fin, mask, variant_ok in per:
+        if not variant_ok:       # the judge's way of telling the variants apart does not hold for this case: make it visible
+            return {'model': ['MODEL-VARIANT-ASSUMPTION-BROKEN', raw], 'spec': None}
         evs = [_ev(e) for e in tr]
         model.append([evs, _out(evs, fin)])
         masks.append(mask)
@@ -226,7 +232,7 @@ def run_impl(case):
     w = W.World(case)
     if w.error:
         return w.error
-    return [w.run(r) for r in case['requests']]
+    return [w.run_render(r) if r.get('op') == 'render' else w.run(r) for r in case['requests']]
 
 
 # ------------------------------------------------------------------ judging: the Coq judge on the implementation's log
@@ -257,6 +263,7 @@ def masks_of(case, obs, spec):
         return list(masks)
     out = list(masks)
     todo = [i for i in range(len(obs)) if i >= len(model) or obs[i] != model[i]]
+    todo = [i for i in todo if i >= len(case['requests']) or case['requests'][i].get('op') != 'render']   # render ops: correspondence only
     items = []
     for i in todo:
         evs, o = obs[i]
@@ -377,6 +384,11 @@ def kinds(case, obs):
                 ks.append('stmt:falsy-permission')
             if s.get('wrapper'):
                 ks.append('stmt:wrapper')
+            if s.get('csrf'):
+                ks.append('stmt:require_csrf')
+    for r in case['requests']:
+        if r.get('op') == 'render':
+            ks.append('req:render-' + ('secure' if r['secure'] else 'permissive'))
     if isinstance(obs, list) and obs and isinstance(obs[0], list):
         seen = set()
         for o in obs:
